@@ -35,12 +35,23 @@ type Rename struct {
 	Func string `json:"func"` // "name" or "Recv.name"
 }
 
+// Subst replaces a call into a dependency (go-git, the OS) inside the real source text by
+// a harness function; the text must occur exactly Count times (default 1), otherwise the
+// check is inconclusive (the source changed upstream).
+type Subst struct {
+	File  string `json:"file"`
+	From  string `json:"from"`
+	To    string `json:"to"`
+	Count int    `json:"count,omitempty"`
+}
+
 type Harness struct {
 	Name       string                      `json:"name"`
 	Pkg        string                      `json:"pkg"`   // import path relative to module ("entity/dag")
 	Entry      string                      `json:"entry"` // function name
 	Overlay    []string                    `json:"overlay"`
 	Rename     []Rename                    `json:"rename"`
+	Subst      []Subst                     `json:"subst"`
 	Tiers      map[string]map[string]int64 `json:"tiers"`
 	Cover      []string                    `json:"cover"`
 	MaxSteps   int64                       `json:"max_steps"`
@@ -412,6 +423,29 @@ func buildOverlay(hs []*Harness) (map[string][]byte, error) {
 				return nil, err
 			}
 			ov[p] = out
+		}
+		for _, sb := range h.Subst {
+			key := sb.File + "#subst#" + sb.From
+			if renamed[key] {
+				continue
+			}
+			renamed[key] = true
+			p := filepath.Join(*flagRepo, sb.File)
+			src, ok := ov[p]
+			if !ok {
+				src, err = os.ReadFile(p)
+				if err != nil {
+					return nil, err
+				}
+			}
+			want := sb.Count
+			if want == 0 {
+				want = 1
+			}
+			if n := bytes.Count(src, []byte(sb.From)); n != want {
+				return nil, fmt.Errorf("substitution %q occurs %d times in %s, expected %d (source changed upstream?)", sb.From, n, sb.File, want)
+			}
+			ov[p] = bytes.ReplaceAll(src, []byte(sb.From), []byte(sb.To))
 		}
 	}
 	return ov, nil
@@ -856,11 +890,12 @@ type replayDoc struct {
 	Params   map[string]int64     `json:"params"`
 	Overlay  []string             `json:"overlay"`
 	Rename   []Rename             `json:"rename,omitempty"`
+	Subst    []Subst              `json:"subst,omitempty"`
 	Decision []int32              `json:"decisions,omitempty"`
 }
 
 func writeReplay(path string, h *Harness, vals []interp.ReplayValue, v *interp.Violation, params map[string]int64) {
-	doc := replayDoc{Harness: h.Name, Entry: h.Entry, Pkg: h.Pkg, Values: vals, Params: params, Overlay: h.Overlay, Rename: h.Rename}
+	doc := replayDoc{Harness: h.Name, Entry: h.Entry, Pkg: h.Pkg, Values: vals, Params: params, Overlay: h.Overlay, Rename: h.Rename, Subst: h.Subst}
 	if v != nil {
 		doc.Label, doc.Kind, doc.Detail, doc.Decision = v.Label, v.Kind, v.Detail, v.Decisions
 	}
@@ -1006,7 +1041,7 @@ func replayFile(path string) int {
 		fmt.Println("bad replay file", err)
 		return 2
 	}
-	h := &Harness{Name: doc.Harness, Entry: doc.Entry, Pkg: doc.Pkg, Overlay: doc.Overlay, Rename: doc.Rename}
+	h := &Harness{Name: doc.Harness, Entry: doc.Entry, Pkg: doc.Pkg, Overlay: doc.Overlay, Rename: doc.Rename, Subst: doc.Subst}
 	allHarnesses = []*Harness{h}
 	ov, err := buildOverlay([]*Harness{h})
 	if err != nil {
@@ -1143,7 +1178,7 @@ func writeEvidence(chk *Check, results []*harnessResult, seed int, wall float64,
 	}
 	data, _ := json.MarshalIndent(ev, "", " ")
 	dir := "evidence"
-	if *flagOnly != "" || *flagParam != "" || *flagNoRep {
+	if *flagOnly != "" || *flagParam != "" || *flagNoRep || *flagRepo != "/repo" {
 		dir = "evidence_scratch" // experiments never overwrite the registered evidence
 	}
 	os.MkdirAll(filepath.Join(*flagVerif, dir), 0755)
